@@ -66,26 +66,27 @@ Proof.
 Qed.
 
 Lemma run_steps_cov P b : forall σ k lg,
-  run_steps unit N flags tt (map (interp true P) b) σ k lg =
-  run_steps unit N flags tt (map (interp false P) b) σ k lg.
+  run_steps unit N tstate tt (map (interp true P) b) σ k lg =
+  run_steps unit N tstate tt (map (interp false P) b) σ k lg.
 Proof.
   induction b as [|s r IH]; intros σ k lg; simpl; auto.
   destruct s; simpl; auto.
   - destruct (find_sub k0 P) as [blk|]; auto. rewrite inst_cover_equiv.
-    destruct (iexec blk (σ, [], false)) as [[o [[fl' lg'] [|]]]| | |]; simpl; auto.
-  - destruct (Bool.eqb (has f σ) want); auto.
+    destruct (iexec blk (fst σ, [], false)) as [[o [[fl' lg'] [|]]]| | |]; simpl; auto.
+  - destruct (Bool.eqb (has f (fst σ)) want); auto.
   - destruct holds; auto.
+  - destruct (N.eqb (rget r0 (snd σ)) v); auto.
 Qed.
 
 Lemma run_scopes_cov P t ss : forall σ c,
-  run_scopes unit N flags (list tstep) (irun_body true P) t ss σ c =
-  run_scopes unit N flags (list tstep) (irun_body false P) t ss σ c.
+  run_scopes unit N tstate (list tstep) (irun_body true P) t ss σ c =
+  run_scopes unit N tstate (list tstep) (irun_body false P) t ss σ c.
 Proof.
   induction ss as [|s r IH]; intros σ c; simpl; auto.
   destruct (t_skip t).
   - rewrite IH. reflexivity.
   - unfold irun_body, run_body_steps. destruct s. rewrite run_steps_cov.
-    destruct (run_steps unit N flags tt (map (interp false P) (t_body t)) σ 0 []) as [[[k v] lg] σ'].
+    destruct (run_steps unit N tstate tt (map (interp false P) (t_body t)) σ 0 []) as [[[k v] lg] σ'].
     rewrite IH. reflexivity.
 Qed.
 
@@ -94,6 +95,6 @@ Theorem inst_coverage_independent P ts : irun_file true P ts = irun_file false P
 Proof.
   unfold irun_file. generalize c0. induction ts as [|t r IH]; intros c; simpl; auto.
   unfold run_test. rewrite run_scopes_cov.
-  destruct (run_scopes unit N flags (list tstep) (irun_body false P) t (t_scopes t) [] c) as [cs1 c1].
+  destruct (run_scopes unit N tstate (list tstep) (irun_body false P) t (t_scopes t) ([], []) c) as [cs1 c1].
   rewrite IH. reflexivity.
 Qed.
